@@ -52,6 +52,8 @@ type Frame struct {
 	params    map[string]*SVal
 	unitName  string
 	nOblig    map[string]int
+	preVals   map[int]map[string]*SVal // loop header -> variable name -> value on loop entry
+	curLoop   int
 }
 
 type loopInfo struct {
@@ -111,7 +113,7 @@ func (fr *Frame) constVal(c *ssa.Const) *Val {
 		if u, ok := constant.Uint64Val(constant.ToInt(c.Value)); ok {
 			bi = new(big.Int).SetUint64(u)
 		}
-		return &Val{T: bvLit(bi, w)}
+		return &Val{T: g.lit(bi, w)}
 	}
 	switch {
 	case isBool(t):
@@ -181,14 +183,17 @@ func (fr *Frame) typeFacts(term string, t types.Type, h Heap) string {
 	// facts every well-typed value satisfies
 	switch t.Underlying().(type) {
 	case *types.Slice:
-		z := bvInt(0, 64)
-		return and(fmt.Sprintf("(bvsle %s (s_len %s))", z, term), fmt.Sprintf("(bvsle (s_len %s) (s_cap %s))", term, term),
-			fmt.Sprintf("(bvsle %s (s_off %s))", z, term),
-			fmt.Sprintf("(bvsle (s_cap %s) #x0000ffffffffffff)", term), fmt.Sprintf("(bvsle (s_off %s) #x0000ffffffffffff)", term),
+		g := fr.g
+		z := g.ilit(0)
+		return and(g.ile(z, "(s_len "+term+")"), g.ile("(s_len "+term+")", "(s_cap "+term+")"),
+			g.ile(z, "(s_off "+term+")"),
+			g.ile("(s_cap "+term+")", g.maxLen()), g.ile("(s_off "+term+")", g.maxLen()),
 			fmt.Sprintf("(=> (= (s_arr %s) 0) (= (s_cap %s) %s))", term, term, z),
 			fmt.Sprintf("(<= (s_arr %s) %s)", term, fr.allocOf(h)), fmt.Sprintf("(>= (s_arr %s) 0)", term))
 	case *types.Pointer, *types.Map:
 		return fmt.Sprintf("(<= %s %s)", term, fr.allocOf(h))
+	case *types.Basic:
+		return fr.g.rangeFact(term, t)
 	}
 	return "true"
 }
@@ -386,8 +391,15 @@ func (fr *Frame) block(b *ssa.BasicBlock, entryGuard string, entryHeap Heap, pos
 		for _, ph := range phis {
 			entryVals[ph] = fr.mergePhi(ph, preds, edges, b)
 		}
+		if fr.preVals == nil {
+			fr.preVals = map[int]map[string]*SVal{}
+		}
+		fr.preVals[b.Index] = map[string]*SVal{}
 		for _, ph := range phis {
 			fr.vals[ph] = entryVals[ph]
+			if ph.Comment != "" {
+				fr.preVals[b.Index][ph.Comment] = &SVal{V: entryVals[ph], T: ph.Type()}
+			}
 		}
 		for k, c := range invs {
 			f := fr.specBool(c.Expr, h, b, c)
@@ -776,7 +788,7 @@ func (g *Gen) mapArrNames(mt *types.Map) (string, string, string) {
 	d, v, c := "MD$"+k, "MV$"+k, "MC$"+k
 	g.heapSort[d] = "(Array Int (Array " + g.sortOf(mt.Key()) + " Bool))"
 	g.heapSort[v] = "(Array Int (Array " + g.sortOf(mt.Key()) + " " + g.sortOf(mt.Elem()) + "))"
-	g.heapSort[c] = "(Array Int (_ BitVec 64))"
+	g.heapSort[c] = "(Array Int " + g.IS() + ")"
 	return d, v, c
 }
 
